@@ -113,6 +113,12 @@ def calderon_residuals(mesh, oreg, osing, transform=None):
         perm = np.random.RandomState(3).permutation(e.shape[1])
         e = e[:, perm]
         e = np.roll(e, 1, axis=0)
+    off = np.zeros((3, 1))
+    if transform == "far":
+        # map-style coordinates: the same mesh far from the origin compared with its size (offsets that are not dyadic numbers); the affine functions below are
+        # taken relative to the translated origin, so the data g, psi are those of the original mesh
+        off = np.array([[8.3e5], [-6.1e5], [3.7e5]])
+        v = v + off
     grid = SG.make_grid(v, e)
     p1 = api.function_space(grid, "P", 1)
     dp0 = api.function_space(grid, "DP", 0)
@@ -128,7 +134,7 @@ def calderon_residuals(mesh, oreg, osing, transform=None):
     worst = [0.0, 0.0]
     for a, b in [((1, 0, 0), 0.3), ((0.2, -0.7, 0.5), -1.0), ((0, 0, 1), 2.0)]:
         a = np.array(a, dtype=float)
-        g = a @ grid.vertices + b
+        g = a @ (grid.vertices - off) + b
         psi = grid.normals @ a
         r1 = (0.5 * M + K) @ g - V @ psi
         rhs2 = (0.5 * Mp - Kp) @ psi
@@ -183,6 +189,26 @@ def ob_calderon_sequence(mesh):
         return violated("Calderon residuals on %s at orders (8,7): %s" % (mesh, txt), witness={"mesh": mesh, "sequence": ["original", "moved"]},
                         replay={"callable": "checks.c01:replay_calderon_sequence", "kwargs": {"mesh": mesh}, "confirmed": True}, signature="calderon-sequence/%s" % mesh)
     return held(txt)
+
+
+def ob_calderon_far(mesh):
+    """bounded: "whatever the ... position ... of the mesh": the mesh translated by (8.3e5, -6.1e5, 3.7e5) has the residuals of the original (orders (8,7)) up to
+    rounding of the coordinates (the operators depend on differences of points only)."""
+    import warnings
+
+    warnings.simplefilter("ignore")
+    r1 = calderon_residuals(mesh, 8, 7)
+    r2 = calderon_residuals(mesh, 8, 7, "far")
+    txt = "original %.1e/%.1e, translated by (8.3e5, -6.1e5, 3.7e5) %.1e/%.1e" % (r1[0], r1[1], r2[0], r2[1])
+    if max(r2) > 1.5 * max(r1) + 1e-8 or max(r1) > 1e-3:
+        return violated("Calderon residuals on %s at orders (8,7): %s" % (mesh, txt), witness={"mesh": mesh, "transform": "far"},
+                        replay={"callable": "checks.c01:replay_calderon_far", "kwargs": {"mesh": mesh}, "confirmed": True}, signature="calderon-far/%s" % mesh)
+    return held(txt)
+
+
+def replay_calderon_far(mesh):
+    r = ob_calderon_far(mesh)
+    return {"violates": r["status"] == "violated", "detail": r["detail"]}
 
 
 def replay_calderon_sequence(mesh):
@@ -283,6 +309,7 @@ def main():
     run.add("calderon.tetra", "bounded", ob_calderon, "tetra")
     run.add("calderon.octa", "bounded", ob_calderon, "octa")
     run.add("calderon.sequence[octa, then its moved and renumbered copy, one process]", "bounded", ob_calderon_sequence, "octa")
+    run.add("calderon.position[octa translated by (8.3e5, -6.1e5, 3.7e5)]", "bounded", ob_calderon_far, "octa")
     if thorough:
         run.add("calderon.cube12", "bounded", ob_calderon, "cube12")
         run.add("calderon.octa.moved", "bounded", ob_calderon, "octa", "moved")
